@@ -411,7 +411,7 @@ def ftDetect (fp : FP) (vs : List Msg) : Res (Bool × Bool) :=
         if v2.str = [] then .ok (false, true)
         else
           match idx vs 1 with
-          | .ok v1 => .ok (fp.ok v1.str = false && fp.ok v2.str = true, false)
+          | .ok v1 => .ok (!fp.ok v1.str && fp.ok v2.str, false)
           | .err e => .err e
           | .panic => .panic
           | .oom => .oom
